@@ -57,15 +57,41 @@ def run(chk):
                     replay={'harness': 'h_sym', 'line': cmd + '\t' + args})
     for (line, kind, err) in res['crashes']:
         chk.violate('crash', 'h_sym %s on %s' % (kind, line), err, replay={'harness': 'h_sym', 'line': line})
+    # make_miller_vector / count_reflections (reciproc.hpp): the unique list is exactly the ASU members of the sphere
+    from props import fam_move
+    hm = fam_move.harness()
+    mrows = list(range(F.NROWS)) if not quick else sorted(set(rng.sample(range(F.NROWS), 140) + [0, 1, 3, 114, 146, 170, 353, 409, 434, 500, 529, 563]))
+    ml = []
+    for i in mrows:
+        ml.append('o_miller\t%d %d %d' % (i, rng.choice([250, 300, 333, 400, 520]), rng.choice([0, 0, 800, 1300])))
+    res2 = vlib.correspond(chk, hm, None, ml, timeout=3000)
+    for l in res2['outputs']:
+        p = l.split('\t')
+        if len(p) == 3:
+            chk.case(p[0] + p[1], p[2] == 'ok', bucket=p[0] + (':' + p[2] if p[2] != 'ok' else ''))
+    for (cmd, args, r) in res2['oracle_fail']:
+        chk.violate('oracle', 'C05 %s: row %s: %s' % (cmd, args.split()[0], r), 'make_miller_vector / count_reflections vs brute force',
+                    replay={'harness': 'h_move', 'line': cmd + '\t' + args})
+    for (line, kind, err) in res2['crashes']:
+        chk.violate('crash', 'h_move %s on %s' % (kind, line), err, replay={'harness': 'h_move', 'line': line})
     chk.extra['exhaustive_cube'] = {'correspondence_N': ncube, 'oracle_N': norb, 'rows': F.NROWS, 'conventions': 2}
     chk.rule = ('all 564 rows x {CCP4, TNT} x every hkl in the cube |h|,|k|,|l| <= N compared exactly with the extracted model '
                 '(is_in, to_asu, to_asu_sign, absent, centric, epsilon), orbit-count oracle on gemmi over a larger cube, '
-                'random indices up to 10^4 aimed at special positions. Every (row, convention, hkl) is a distinct case')
+                'random indices up to 10^4 aimed at special positions; make_miller_vector / count_reflections vs brute force over the resolution sphere. Every (row, convention, hkl) is a distinct case')
     if not proved:
         chk.violate('proof', 'Properties_C05 ' + ','.join(getattr(chk, 'failed_theorems', [])),
                     getattr(chk, 'coq_log_tail', ''), found_input=False)
 
 
 def replay(chk, path):
+    import json
+    r = json.load(open(path))['replay']
+    if r.get('harness') == 'h_move':
+        from props import fam_move
+        rc, out, err = vlib.run_lines(fam_move.harness(), [], inp=(r['line'] + '\n').encode())
+        print('\n'.join(out), err[-2000:])
+        if out and not out[-1].endswith('\tok'):
+            chk.violate('oracle', 'replayed oracle fails', out[-1][:500])
+        return
     from props import C10
     C10.replay(chk, path)
